@@ -588,3 +588,103 @@ def atMostOneDefault (p : Program) : Bool :=
   ((p.ifaces.flatMap fun it => it.funs.filter fun f => f.dflt.isSome).length ≤ 1) && p.confs.Nodup
 
 end Verif.Proofs.Lang3
+
+namespace Verif.Proofs.Lang3
+open Verif.Model.Lang3.Cond
+
+/-! ## `before` extraction produces well-formed layers -/
+
+/-- source form: no synthetic before-variables -/
+def srcI : IExp → Bool
+  | .bvar _ => false
+  | .before e => srcI e
+  | .add l r | .sub l r | .mul l r | .div l r => srcI l && srcI r
+  | _ => true
+
+def srcB : BExp → Bool
+  | .lt l r | .le l r | .eq l r => srcI l && srcI r
+  | .and l r | .or l r => srcB l && srcB r
+  | .not e => srcB e
+  | _ => true
+
+def srcC : Cond → Bool
+  | .emit e => srcI e
+  | .test t => srcB t
+
+theorem extractI_bound (e : IExp) (acc : List IExp) (h : srcI e = true) :
+    acc.length ≤ (extractI e acc).2.length ∧ boundI (extractI e acc).2.length (extractI e acc).1 = true := by
+  induction e generalizing acc with
+  | before e ih =>
+    simp only [srcI] at h
+    have := ih acc h
+    simp only [extractI, List.length_append, List.length_singleton, boundI]
+    exact ⟨by omega, by simp⟩
+  | bvar k => simp [srcI] at h
+  | add l r ihl ihr | sub l r ihl ihr | mul l r ihl ihr | div l r ihl ihr =>
+    simp [srcI] at h
+    have h1 := ihl acc h.1
+    have h2 := ihr (extractI l acc).2 h.2
+    simp only [extractI, boundI, Bool.and_eq_true]
+    exact ⟨by omega, boundI_mono h2.1 _ h1.2, h2.2⟩
+  | _ => simp [extractI, boundI]
+
+theorem extractB_bound (e : BExp) (acc : List IExp) (h : srcB e = true) :
+    acc.length ≤ (extractB e acc).2.length ∧ boundB (extractB e acc).2.length (extractB e acc).1 = true := by
+  induction e generalizing acc with
+  | lt l r | le l r | eq l r =>
+    simp [srcB] at h
+    have h1 := extractI_bound l acc h.1
+    have h2 := extractI_bound r (extractI l acc).2 h.2
+    simp only [extractB, boundB, Bool.and_eq_true]
+    exact ⟨by omega, boundI_mono h2.1 _ h1.2, h2.2⟩
+  | and l r ihl ihr | or l r ihl ihr =>
+    simp [srcB] at h
+    have h1 := ihl acc h.1
+    have h2 := ihr (extractB l acc).2 h.2
+    simp only [extractB, boundB, Bool.and_eq_true]
+    exact ⟨by omega, boundB_mono h2.1 _ h1.2, h2.2⟩
+  | not e ih =>
+    simp [srcB] at h
+    have h1 := ih acc h
+    simp only [extractB, boundB]
+    exact h1
+  | _ => simp [extractB, boundB]
+
+theorem extractConds_bound (cs : List Cond) (acc : List IExp) (h : ∀ c ∈ cs, srcC c = true) :
+    acc.length ≤ (extractConds cs acc).2.length ∧
+      ∀ c ∈ (extractConds cs acc).1, boundC (extractConds cs acc).2.length c = true := by
+  induction cs generalizing acc with
+  | nil => simp [extractConds]
+  | cons c cs ih =>
+    have hc := h c (List.mem_cons_self ..)
+    have hrest := fun c' hc' => h c' (List.mem_cons_of_mem _ hc')
+    cases c with
+    | emit e =>
+      have h1 := extractI_bound e acc hc
+      have h2 := ih (extractI e acc).2 hrest
+      simp only [extractConds]
+      refine ⟨by omega, ?_⟩
+      intro c' hc'
+      simp only [List.mem_cons] at hc'
+      rcases hc' with rfl | hc'
+      · exact boundI_mono h2.1 _ h1.2
+      · exact h2.2 c' hc'
+    | test t =>
+      have h1 := extractB_bound t acc hc
+      have h2 := ih (extractB t acc).2 hrest
+      simp only [extractConds]
+      refine ⟨by omega, ?_⟩
+      intro c' hc'
+      simp only [List.mem_cons] at hc'
+      rcases hc' with rfl | hc'
+      · exact boundB_mono h2.1 _ h1.2
+      · exact h2.2 c' hc'
+
+/-- the layer produced by `before` extraction from source-level conditions is well-formed -/
+theorem rewrite_wf (c : Conds) (h : ∀ d ∈ c.post, srcC d = true) : LayerWf (rewrite c) := by
+  have := extractConds_bound c.post [] h
+  intro d hd
+  simp only [rewrite] at hd ⊢
+  exact this.2 d hd
+
+end Verif.Proofs.Lang3
